@@ -84,7 +84,18 @@ def _fresh(kind):
     return sb, prog
 
 
+_TRACES = {}
+
+
 def fault_free_trace(kind, scenario):
+    """the mutating operations of the faulted call when nothing fails - recomputed from the current code once per worker process"""
+    key = (kind, scenario[0])
+    if key not in _TRACES:
+        _TRACES[key] = _fault_free_trace(kind, scenario)
+    return _TRACES[key]
+
+
+def _fault_free_trace(kind, scenario):
     name, pre, faulted, verify = scenario
     sb, prog = _fresh(kind)
     try:
@@ -98,17 +109,25 @@ def fault_free_trace(kind, scenario):
         sb.close()
 
 
-def _run(si, kind, k, vi, tsel):
+K_MAX = 60
+
+
+def _run(si, kind, k, vi, tsel, dense=False):
     scenario = SCENARIOS[si]
     name, pre, faulted, verify = scenario
     ops = fault_free_trace(kind, scenario)
+    check("harness:operation-index-range-covers-the-whole-trace", len(ops) <= K_MAX, len(ops))
     assume(k < len(ops))
     opkind, oppath, opsize = ops[k]
     variant = VARIANTS[vi]
     if variant in ("die-partial", "err-partial"):
         assume(opkind == "write")
         # landed length: 0, 1, half, all-but-one (quick) or every length for short files
-        choices = sorted({0, 1, opsize // 2, max(0, opsize - 1)})
+        if dense:
+            # thorough: every landed length for short files, 24 evenly spread ones (with both ends) for longer files
+            choices = list(range(opsize)) if opsize <= 48 else sorted({0, 1, opsize - 1} | {(opsize * j) // 24 for j in range(24)})
+        else:
+            choices = sorted({0, 1, opsize // 2, max(0, opsize - 1)})
         assume(tsel < len(choices))
         t = choices[tsel]
         assume(t < opsize)
@@ -180,17 +199,18 @@ def _run(si, kind, k, vi, tsel):
     bounds="8 memoization scenarios (cold call; result with the same bytes as a stored one; key override; partition of 3 members; "
            "re-memoize after forget; exception result; sibling stored; merged partition whose parent is computed and stored inside the faulted call) x EVERY mutating file-system operation issued during the faulted call "
            "(the fault-free trace is recomputed from the current code on every run) x 5 fault variants (die before / after, die after t "
-           "bytes, ENOSPC before, ENOSPC/EFBIG after t bytes) x landed length t in {0, 1, half, all-but-one} x {fs, fs+cache, fs+separate "
+           "bytes, ENOSPC before, ENOSPC/EFBIG after t bytes) x landed length t in {0, 1, half, all-but-one} (thorough: every length up to 48 bytes, 24 spread lengths beyond) x {fs, fs+cache, fs+separate "
            "metadata path}; then restart, call everything again (correct, no exception), again (nothing recomputed), restart, again",
     variables="choice: k (operation index), variant, landed-length selector",
     stubs=("FaultFS: Python-level wrappers around open / write / makedirs / unlink / rmdir / rename / rmtree for paths under the store root; "
            "'death' = BaseException + all later mutations dropped",),
-    budget_s={"quick": 170, "thorough": 900},
+    budget_s={"quick": 300, "thorough": 1500},
+    tier_args={"quick": {"dense": False}, "thorough": {"dense": True}},
     choice_vars=3,
 )
-def faults(k: int, vi: int, tsel: int, si: int, store: int):
-    k = pick(k, 40)
+def faults(k: int, vi: int, tsel: int, si: int, store: int, dense: bool):
+    k = pick(k, K_MAX)
     vi = pick(vi, len(VARIANTS))
-    tsel = pick(tsel, 4)
+    tsel = pick(tsel, 48 if dense else 4)
     with concrete_region():
-        _run(si, STORES[store], k, vi, tsel)
+        _run(si, STORES[store], k, vi, tsel, dense)
